@@ -168,7 +168,7 @@ __CPROVER_requires(g_t0->task_tq == g_tq && g_t1->task_tq == g_tq)
  * plus one if the task has been prepared again since */
 __CPROVER_requires((g_nq >= 1 ==> (g_t0->task_busy >= 1u + (g_t0->task_prep ? 1u : 0u) && g_t0->task_busy <= TASK_BUSY_MAX)) && (g_nq >= 2 ==> g_t1->task_busy >= 1u + (g_t1->task_prep ? 1u : 0u)))
 __CPROVER_assigns(TQ_HEAD(g_tq), g_tq->tq_run, g_t0->task_node, g_t1->task_node, g_t0->task_busy, g_t1->task_busy, g_t0->task_prep)
-__CPROVER_assigns(TASK_CB_GHOSTS, g_cb_seq, g_cb_redo_done, g_wk_task0, g_wk_task1, g_wk_sched, g_wk_drain, g_cv_waited, VP_SYNC_GHOSTS)
+__CPROVER_assigns(TASK_CB_GHOSTS, g_cb_seq, g_cb_redo_done, g_wk_task0, g_wk_task1, g_wk_sched, g_wk_drain, g_cv_waited, g_thread_entered, VP_SYNC_GHOSTS)
 /* returns with every lock released, the queue empty, the thread told to stop */
 __CPROVER_ensures(VP_NO_LOCK_HELD && TQ_EMPTY(g_tq) && TASK_OFFQ(g_t0) && TASK_OFFQ(g_t1) && !g_tq->tq_run)
 /* every queued entry was run exactly once, FIRST one first (FIFO), a re-dispatched task behind the rest */
@@ -257,8 +257,9 @@ __CPROVER_requires((g_na >= 1 ==> AIO_LISTED_OK(g_a0, 0)) && (g_na >= 2 ==> AIO_
 __CPROVER_requires((g_na < 1 ==> AIO_OFF_EQ(g_a0)) && (g_na < 2 ==> AIO_OFF_EQ(g_a1)))
 __CPROVER_requires(g_fire_n[0] == 0 && g_fire_n[1] == 0 && g_left[0] == 0 && g_left[1] == 0 && TQ_EMPTY(g_tq))
 __CPROVER_requires(g_race ==> (g_na == 2 && g_race_timeout > 0))
+__CPROVER_requires(!g_in_cancel && g_passes == 0 && g_eq_sleeps == 0)
 __CPROVER_assigns(__CPROVER_object_whole(g_eq), __CPROVER_object_whole(g_a0), __CPROVER_object_whole(g_a1), TQ_HEAD(g_tq))
-__CPROVER_assigns(g_now, g_fire_n, g_fire_rv, g_fire_arg, g_left, g_race_done, g_eq_sleeps, g_wk_eq, g_wk_sched, g_wk_task0, g_wk_task1, TASK_CB_GHOSTS, g_cb_seq, g_thread_entered, VP_SYNC_GHOSTS)
+__CPROVER_assigns(g_now, g_fire_n, g_fire_rv, g_fire_arg, g_left, g_race_done, g_in_cancel, g_passes, g_eq_sleeps, g_wk_eq, g_wk_sched, g_wk_task0, g_wk_task1, TASK_CB_GHOSTS, g_cb_seq, g_thread_entered, VP_SYNC_GHOSTS)
 /* returns with the lock released, nothing listed, every hold dropped */
 __CPROVER_ensures(VP_NO_LOCK_HELD && EQ_EMPTY(g_eq) && !g_a0->a_expiring && !g_a1->a_expiring && g_eq->eq_exit)
 /* each listed operation was either expired exactly once -- cancel slot taken (cleared), the provider's cancel
@@ -271,6 +272,11 @@ __CPROVER_ensures(g_na < 1 ==> (g_fire_n[0] == 0 && g_left[0] == 0))
 __CPROVER_ensures(g_na < 2 ==> (g_fire_n[1] == 0 && g_left[1] == 0))
 /* with another thread completing and restarting g_a1 in the window: still at most one expiry per operation */
 __CPROVER_ensures(g_race ==> (g_fire_n[0] + g_left[0] == 1 && g_fire_n[1] + g_left[1] <= 1))
+/* ... and the operation started in the window (deadline after this pass's clock value) is NOT expired by the
+ * stale batch entry: it is still listed, slot occupied, when the pass ends */
+__CPROVER_ensures((g_race && g_race_done && !g_eq->eq_stop) ==> (g_fire_n[1] == 0 && g_left[1] == 1 && g_a1->a_cancel_fn == vp_cancel))
+/* one pass or one sleep, then the (modelled) exit */
+__CPROVER_ensures(g_passes + g_eq_sleeps <= 1)
 COVER(g_na == 2 && !g_race && AIO_FIRED(0) && AIO_FIRED(1) && !g_sleep0[0] && !g_sleep0[1] && g_cancel_finishes && !g_eq->eq_stop && g_fire_rv[0] == NNG_ETIMEDOUT && g_fire_rv[1] == 0)
 COVER(g_na == 2 && !g_race && AIO_FIRED(0) && AIO_LEFT(1) && !g_sleep0[0] && !g_sleep0[1])
 COVER(g_na == 2 && !g_race && AIO_LEFT(0) && AIO_FIRED(1) && !g_sleep0[0] && !g_sleep0[1])
